@@ -658,6 +658,9 @@ def a_dtype(I, a):
     return {"int": np.dtype("int64"), "real": np.dtype("float64"), "bool": np.dtype("bool")}.get(a.dtype, Opaque("dtype"))
 
 
+CLASS_MODELS[np.iinfo] = lambda I, args, kw: np.iinfo(args[0])
+CLASS_MODELS[np.finfo] = lambda I, args, kw: np.finfo(args[0])
+
 import h5py as _h5py  # noqa: E402
 
 MODELS[id(_h5py.special_dtype)] = (_h5py.special_dtype, lambda I, args, kw: Opaque("special_dtype"))
@@ -696,19 +699,59 @@ def a_tolist(I, a):
     return out
 
 
+INT_WIDTHS = {"int8": (8, True), "int16": (16, True), "int32": (32, True), "int64": (64, True), "uint8": (8, False), "uint16": (16, False), "uint32": (32, False), "uint64": (64, False)}
+
+
+def int_width(dtype):
+    try:
+        name = np.dtype(dtype).name
+    except TypeError:
+        return None
+    return INT_WIDTHS.get(name)
+
+
+def wrap_int(e, bits, signed):
+    """C-style conversion of a mathematical integer to a fixed-width integer (what numpy's
+    astype does for integer inputs; for out-of-range floats the result is undefined behaviour)."""
+    m = 2 ** bits
+    if signed:
+        half = 2 ** (bits - 1)
+        return ((e + half) % m) - half
+    return e % m
+
+
 @method(Arr, "astype")
 def a_astype(I, a, dtype, **kw):
     if a.fields is not None:
         return a_copy(I, a)  # structured table cast to its own dtype
     tgt = dtype_kind(dtype)
+    w = int_width(dtype) if tgt == "int" else None
+    if w is not None and w[0] < 64 and a.dtype in ("int", "real", "bool"):
+        theory.use("T-np.astype to a fixed-width integer wraps modulo 2^bits (floats: truncation toward zero first)")
+        bits, signed = w
+        src = fz(a)
+        if a.dtype == "int":
+            out = Arr(a.shape, lambda *idx: wrap_int(src(*idx), bits, signed), "int", a.tag + ".astype")
+        elif a.dtype == "bool":
+            out = Arr(a.shape, lambda *idx: z3.If(src(*idx), 1, 0), "int", a.tag + ".astype")
+        else:
+            def trunc(x):
+                fl = z3.ToInt(x)
+                return z3.If(x >= 0, fl, z3.If(z3.ToReal(fl) == x, fl, fl + 1))
+
+            out = Arr(a.shape, lambda *idx: wrap_int(trunc(src(*idx)), bits, signed), "int", a.tag + ".astype")
+        out.int_dtype = np.dtype(dtype).name
+        return out
     if tgt == a.dtype:
         return Arr(a.shape, fz(a), a.dtype, a.tag)
     if tgt == "int" and a.dtype == "bool":
         return map1(a, lambda e: z3.If(e, 1, 0), "int")
     if tgt == "real" and a.dtype == "int":
         return map1(a, z3.ToReal, "real")
-    if tgt == "bool" and a.dtype == "int":
+    if tgt == "bool" and a.dtype in ("int", "real"):
         return map1(a, lambda e: e != 0, "bool")
+    if tgt == "real" and a.dtype == "bool":
+        return map1(a, lambda e: z3.If(e, z3.RealVal(1), z3.RealVal(0)), "real")
     raise Unsupported(f"astype {a.dtype}->{tgt}")
 
 
@@ -1181,6 +1224,21 @@ def _scalar_fn(name):
 
 for _n in ("cos", "sin", "deg2rad", "rad2deg", "sqrt", "arctan", "tan"):
     MODELS[id(getattr(np, _n))] = (getattr(np, _n), _scalar_fn(_n))
+
+
+@model(np.modf)
+def np_modf(I, args, kw):
+    theory.use("T-np.modf: fractional and integral parts (truncation toward zero)")
+    a = as_arr(I, args[0])
+    src = fz(a)
+    if a.dtype in ("int", "bool"):
+        return (Arr(a.shape, lambda *idx: z3.RealVal(0), "real", "modf.frac"), map1(a, (lambda e: z3.ToReal(e)) if a.dtype == "int" else (lambda e: z3.If(e, z3.RealVal(1), z3.RealVal(0))), "real"))
+
+    def trunc(x):
+        fl = z3.ToInt(x)
+        return z3.If(x >= 0, fl, z3.If(z3.ToReal(fl) == x, fl, fl + 1))
+
+    return (Arr(a.shape, lambda *idx: src(*idx) - z3.ToReal(trunc(src(*idx))), "real", "modf.frac"), Arr(a.shape, lambda *idx: z3.ToReal(trunc(src(*idx))), "real", "modf.int"))
 
 
 @model(np.dot)
